@@ -131,6 +131,8 @@ pub fn sample_resources<SE: ShellExtensions>(shell: &Shell<SE>) -> Resources {
 pub struct RunResult {
     /// what the process would exit with (entry.rs: the shell's last exit status)
     pub status: Option<u8>,
+    /// the main shell `exec`ed a simulated program (status is that program's)
+    pub exec_replaced: bool,
     /// exit code carried by the front-end's ExecutionResult, when it returned one
     pub result_code: Option<u8>,
     pub front_end_error: Option<String>,
@@ -247,6 +249,7 @@ pub fn install_hooks() {
         io_point: world::io_point,
         open_point: world::open_point,
         sim_spawn: crate::procs::sim_spawn,
+        sim_exec: crate::procs::sim_exec,
         before_process_wait: world::before_process_wait,
         before_process_poll: world::before_process_poll,
     });
@@ -551,9 +554,15 @@ pub fn run_with(spec: &RunSpec, inspect: Option<Inspect>) -> RunResult {
     if let Some(d) = panic_detail {
         abort = Some(Abort::Panic { detail: d });
     }
+    // `exec` of a simulated program: the process ended with that program's status
+    let exec_status: Option<u8> = w.exec_replaced.map(|raw| if raw & 0x7f != 0 { 128 + (raw & 0x7f) as u8 } else { ((raw >> 8) & 0xff) as u8 });
+    if exec_status.is_some() && matches!(&abort, Some(Abort::Panic { detail }) if detail == "exec") {
+        abort = None;
+    }
     let orphans_blocked = matches!(&abort, Some(Abort::Deadlock { main_done: true, .. }));
     RunResult {
-        status: out.as_ref().and_then(|o| o.status),
+        status: exec_status.or(out.as_ref().and_then(|o| o.status)),
+        exec_replaced: exec_status.is_some(),
         result_code: out.as_ref().and_then(|o| o.result_code),
         front_end_error: out.as_ref().and_then(|o| o.fe_err.clone()),
         events: w.events,
@@ -582,6 +591,7 @@ pub fn run_with(spec: &RunSpec, inspect: Option<Inspect>) -> RunResult {
 fn harness_fail(msg: String) -> RunResult {
     RunResult {
         status: None,
+        exec_replaced: false,
         result_code: None,
         front_end_error: None,
         events: vec![],
